@@ -1372,6 +1372,9 @@ func (o *baseObject) stringKeys(all bool, keys []Value) []Value {
 			if prop, ok := prop.(*valueProperty); ok && !prop.enumerable {
 				continue
 			}
+			if prop, ok := prop.(*mappedProperty); ok && !prop.enumerable {
+				continue
+			}
 			keys = append(keys, stringValueFromRaw(k))
 		}
 	}
